@@ -37,6 +37,7 @@ func runC05(c *Ctx) {
 	r.Doc("P2", "strategic = divider(all registered priorities sorted, HandlersQuantity) into an empty map; v1: refreshed after every change of the set", 4)
 	r.Doc("D2", "lists handed to the divider are sorted and duplicate-free", 8)
 	r.Doc("P3", "the second phase hands out the unspent allotment of the round, measured before anything changes the map", 2)
+	r.Doc("P5", "(= B4) the number of vacant handlers is HandlersQuantity - sum(actual): handlers whose release was not read yet are not vacant", 2)
 	r.Doc("P4", "the pass over an input ends only when its allotment is spent, nothing is buffered / two ticks passed, it is closed, or a stop fired (so an unspent allotment means 'no data')", 4)
 	for _, p := range []*Prog{c.V1, c.V2} {
 		pr, err := resolvePrio(p)
@@ -62,6 +63,12 @@ func runC05(c *Ctx) {
 		}
 		checkP2c(c, pr)
 		checkSpendLoopExits(c, pr, "P4")
+		// P5 (= B4): what is handed out is measured as HandlersQuantity - sum(actual), nothing else
+		subv := &Ctx{V1: c.V1, V2: c.V2, Tier: c.Tier, R: NewReport("tmp", c.Tier)}
+		checkB4(subv, pr)
+		for _, o := range subv.R.Obls {
+			c.R.Check(o.OK, "P5", strings.TrimPrefix(o.Key, "B4@"), o.Site, o.Detail, o.Detail)
+		}
 	}
 }
 
@@ -285,6 +292,7 @@ func runC06(c *Ctx) {
 	r.Doc("N5", "(= P1) with nothing in flight the first-phase allotment is the validated strategic distribution: the top-up visits every registered priority and assigns strategic-actual", 2)
 	r.Doc("N6", "the base-path candidates (uncrowded) are exactly the registered priorities with actual < strategic", 2)
 	r.Doc("N7", "the 'allotment filled' predicate answers true exactly when every listed priority has a non-zero allotment", 2)
+	r.Doc("N10", "(= E2 registration) a newly registered channel starts not drained, so it is read", 1)
 	r.Doc("N9", "(= P4) the pass over an input is left early only for lack of data, closure or stop", 4)
 	r.Doc("N8", "second-phase candidates: first the priorities that used up their allotment (tactic == 0), then those with actual < hypothetical share", 4)
 	for _, p := range []*Prog{c.V1, c.V2} {
@@ -310,6 +318,17 @@ func runC06(c *Ctx) {
 		}
 		checkN6(c, pr)
 		checkSpendLoopExits(c, pr, "N9")
+		// N10 (= E2 registration): a channel registered under a priority is read: its entry does not
+		// inherit the drained flag of a previous channel
+		if sr, err := resolveSchedRoles(p); err == nil {
+			subd := &Ctx{V1: c.V1, V2: c.V2, Tier: c.Tier, R: NewReport("tmp", c.Tier)}
+			c07drainedMarks(subd, sr)
+			for _, o := range subd.R.Obls {
+				if strings.Contains(o.Key, "#register") {
+					c.R.Check(o.OK, "N10", strings.TrimPrefix(o.Key, "E2@"), o.Site, o.Detail, o.Detail)
+				}
+			}
+		}
 	}
 	sub := &Ctx{V1: c.V1, V2: c.V2, Tier: c.Tier, R: NewReport("tmp", c.Tier)}
 	checkD7D8(sub)
@@ -688,7 +707,7 @@ func runC17(c *Ctx) {
 	r.Doc("R1", "command channels are unbuffered; the API hands the command over with one plain blocking send", 4)
 	r.Doc("R2", "a received command is applied inside its clause before the clause is left", 2)
 	r.Doc("R3", "removal deletes the table entry; input receives look the channel up afresh (same block as the select)", 3)
-	r.Doc("R4", "(= B11, E3, E4) counters of a removed priority are kept until zero and graceful termination waits for them", 3)
+	r.Doc("R4", "(= B9, B11, E3, E4) counters of a removed priority change only by releases, are kept until zero, and graceful termination waits for them", 8)
 	r.Doc("R5", "(= X1, D2, P2) replace channel / reset Drained / append if new / re-sort / re-divide", 6)
 	pr, err := resolvePrio(p)
 	if err != nil {
@@ -840,6 +859,9 @@ func runC17(c *Ctx) {
 	// R4
 	sub := &Ctx{V1: c.V1, V2: c.V2, Tier: c.Tier, R: NewReport("tmp", c.Tier)}
 	checkB11(sub, pr)
+	// ... the counters change only by +1 per send and -1 per received release: re-adding a removed
+	// priority must not reset what is still in flight
+	checkB9(sub, pr)
 	// ... and termination waits for them: the nothing-in-flight predicate ranges over the whole
 	// `actual` map (which outlives removed inputs), and the deferred wait leaves only when it holds
 	c07forall(sub, pr.sr, pr.sr.allZero, "zero")
